@@ -3,12 +3,19 @@ package main
 // C13 facts: session table size, the timeouts, and the *assignment lists* of the two loops of the pruning task
 // started in NewServerDnsListener (which table each loop ranges over, which timeout it compares with, what it
 // assigns to connections[u.UserId] / oldConnections[u.UserId]).  The Lean `expire` interprets these lists.
+//
+// The pruning task is "what the first goroutine started in NewServerDnsListener runs": a function literal or an unexported
+// helper of the package, followed (c13Walk) into the unexported helpers it calls -- the two loops are found wherever they
+// live (e.g. in a method pruneStaleConnections(now)), the sleep interval may be a named constant, and "the current
+// time" of the expiry test is anything that resolves to time.Now() (a local, or a parameter bound to it at the call).
 
 import (
 	"fmt"
 	"go/ast"
 	"go/constant"
 	"go/token"
+	"os"
+	"path/filepath"
 	"strings"
 )
 
@@ -26,9 +33,173 @@ func tableIndex(name string) int {
 	return -1
 }
 
+// ---- helpers shared by the C13 extractors: following calls into unexported helpers of the same package --------------
+
+// c13PkgFuncs returns every function declaration of the (non-test) files of a package directory, by name.
+func c13PkgFuncs(dir string) map[string][]*ast.FuncDecl {
+	m := map[string][]*ast.FuncDecl{}
+	ents, err := os.ReadDir(filepath.Join(repo, dir))
+	if err != nil {
+		fail("read %s: %v", dir, err)
+		return m
+	}
+	for _, e := range ents {
+		n := e.Name()
+		if e.IsDir() || !strings.HasSuffix(n, ".go") || strings.HasSuffix(n, "_test.go") {
+			continue
+		}
+		for _, d := range parse(filepath.Join(dir, n)).Decls {
+			if fd, ok := d.(*ast.FuncDecl); ok && fd.Body != nil {
+				m[fd.Name.Name] = append(m[fd.Name.Name], fd)
+			}
+		}
+	}
+	return m
+}
+
+// c13Callee resolves a call of an *unexported* function `name(…)` or method `<x>.name(…)` of the same package to its
+// declaration (nil when it is not one, or when the name is declared more than once in the package -- the extractor has
+// no type information).  An unexported method can only be a method of this package.
+func c13Callee(funcs map[string][]*ast.FuncDecl, call *ast.CallExpr) *ast.FuncDecl {
+	name, method := "", false
+	switch fn := call.Fun.(type) {
+	case *ast.Ident:
+		name = fn.Name
+	case *ast.SelectorExpr:
+		name, method = fn.Sel.Name, true
+	default:
+		return nil
+	}
+	if name == "" || !(name[0] == '_' || (name[0] >= 'a' && name[0] <= 'z')) {
+		return nil
+	}
+	ds := funcs[name]
+	if len(ds) != 1 || (ds[0].Recv != nil) != method {
+		return nil
+	}
+	return ds[0]
+}
+
+// c13GoBody: the body run by the first goroutine started in a function: `go func() { … }()` or `go <x>.helper(…)` /
+// `go helper(…)` with an unexported helper of the package.
+func c13GoBody(funcs map[string][]*ast.FuncDecl, in *ast.FuncDecl) (body *ast.BlockStmt, sc *c13Scope) {
+	ast.Inspect(in.Body, func(n ast.Node) bool {
+		g, ok := n.(*ast.GoStmt)
+		if !ok || body != nil {
+			return body == nil
+		}
+		outer := &c13Scope{body: in.Body}
+		if fl, ok := g.Call.Fun.(*ast.FuncLit); ok {
+			body, sc = fl.Body, outer.enter(fl.Type, fl.Body, g.Call.Args)
+		} else if fd := c13Callee(funcs, g.Call); fd != nil {
+			body, sc = fd.Body, outer.enter(fd.Type, fd.Body, g.Call.Args)
+		}
+		return false
+	})
+	return
+}
+
+// c13Scope: where an identifier of an inlined body comes from (parameters are bound to the call's arguments)
+type c13Scope struct {
+	body   *ast.BlockStmt
+	params map[string]ast.Expr
+	parent *c13Scope
+	depth  int
+}
+
+func (sc *c13Scope) enter(ft *ast.FuncType, body *ast.BlockStmt, args []ast.Expr) *c13Scope {
+	n := &c13Scope{body: body, params: map[string]ast.Expr{}, parent: sc, depth: sc.depth + 1}
+	i := 0
+	if ft != nil && ft.Params != nil {
+		for _, fld := range ft.Params.List {
+			for _, nm := range fld.Names {
+				if i < len(args) {
+					n.params[nm.Name] = args[i]
+				}
+				i++
+			}
+		}
+	}
+	return n
+}
+
+func c13TimeNow(e ast.Expr) bool {
+	c, ok := e.(*ast.CallExpr)
+	return ok && len(c.Args) == 0 && exprString(c.Fun) == "time.Now"
+}
+
+// isNow: the expression is the current time -- `time.Now()`, a local variable whose every assignment is `time.Now()`,
+// or a parameter bound to such an expression at the call.
+func (sc *c13Scope) isNow(e ast.Expr) bool {
+	if c13TimeNow(e) {
+		return true
+	}
+	id, ok := e.(*ast.Ident)
+	if !ok || sc == nil {
+		return false
+	}
+	if a, ok := sc.params[id.Name]; ok {
+		return sc.parent.isNow(a)
+	}
+	n, all := 0, true
+	ast.Inspect(sc.body, func(x ast.Node) bool {
+		if as, ok := x.(*ast.AssignStmt); ok {
+			for i, l := range as.Lhs {
+				if exprString(l) == id.Name {
+					n++
+					if len(as.Lhs) != len(as.Rhs) || !c13TimeNow(as.Rhs[i]) {
+						all = false
+					}
+				}
+			}
+		}
+		return true
+	})
+	if n == 0 && sc.parent != nil { // a closure sees the enclosing function's variables
+		return sc.parent.isNow(e)
+	}
+	return n > 0 && all
+}
+
+// c13Conjuncts splits `a && (b && c)` into [a, b, c]
+func c13Conjuncts(e ast.Expr) []ast.Expr {
+	switch x := e.(type) {
+	case *ast.ParenExpr:
+		return c13Conjuncts(x.X)
+	case *ast.BinaryExpr:
+		if x.Op == token.LAND {
+			return append(c13Conjuncts(x.X), c13Conjuncts(x.Y)...)
+		}
+	}
+	return []ast.Expr{e}
+}
+
+// c13Walk visits the nodes of a body in source order and continues, at every call of an unexported helper of the package
+// (directly or as `go helper(…)`), inside that helper (at most 3 levels deep; function literals that are not called
+// are entered as ordinary nodes).
+func c13Walk(funcs map[string][]*ast.FuncDecl, body *ast.BlockStmt, sc *c13Scope, visit func(n ast.Node, sc *c13Scope)) {
+	ast.Inspect(body, func(n ast.Node) bool {
+		if n == nil {
+			return true
+		}
+		visit(n, sc)
+		if call, ok := n.(*ast.CallExpr); ok && sc.depth < 4 {
+			if fd := c13Callee(funcs, call); fd != nil {
+				for _, a := range call.Args {
+					c13Walk(funcs, &ast.BlockStmt{List: []ast.Stmt{&ast.ExprStmt{X: a}}}, sc, visit)
+				}
+				c13Walk(funcs, fd.Body, sc.enter(fd.Type, fd.Body, call.Args), visit)
+				return false
+			}
+		}
+		return true
+	})
+}
+
 func extractC13(o *out) {
 	const file = "internal/streams/dns/dns_server_connection.go"
 	f := parse(file)
+	funcs := c13PkgFuncs(filepath.Dir(file))
 	b := o.w("C13.lean")
 	en := env{"time.Minute": constant.MakeInt64(60), "time.Second": constant.MakeInt64(1), "time.Hour": constant.MakeInt64(3600)}
 	en = fileConsts(f, en)
@@ -42,7 +213,7 @@ func extractC13(o *out) {
 	}
 	// local const MaxUserCount
 	maxUsers := int64(-1)
-	var goFn *ast.FuncLit
+	goBody, goScope := c13GoBody(funcs, ctor)
 	ast.Inspect(ctor.Body, func(n ast.Node) bool {
 		switch x := n.(type) {
 		case *ast.GenDecl:
@@ -57,10 +228,6 @@ func extractC13(o *out) {
 						}
 					}
 				}
-			}
-		case *ast.GoStmt:
-			if fl, ok := x.Call.Fun.(*ast.FuncLit); ok && goFn == nil {
-				goFn = fl
 			}
 		}
 		return true
@@ -91,7 +258,7 @@ func extractC13(o *out) {
 	if !made["connections"] || !made["oldConnections"] {
 		fail("connections/oldConnections are no longer make(…, MaxUserCount)")
 	}
-	if goFn == nil {
+	if goBody == nil {
 		fail("pruning goroutine not found in NewServerDnsListener")
 		return
 	}
@@ -103,7 +270,8 @@ func extractC13(o *out) {
 		assigns []string
 	}
 	var loops []loop
-	ast.Inspect(goFn.Body, func(n ast.Node) bool {
+	// the goroutine's body, followed into the unexported helpers it calls (the loops may live in a method of the listener)
+	c13Walk(funcs, goBody, goScope, func(n ast.Node, sc *c13Scope) {
 		switch x := n.(type) {
 		case *ast.CallExpr:
 			if exprString(x.Fun) == "time.Sleep" && len(x.Args) == 1 {
@@ -114,36 +282,51 @@ func extractC13(o *out) {
 		case *ast.RangeStmt:
 			sel, ok := x.X.(*ast.SelectorExpr)
 			if !ok || tableIndex(sel.Sel.Name) < 0 {
-				return true
+				return
 			}
 			val, _ := x.Value.(*ast.Ident)
 			if val == nil {
 				fail("pruning loop over %s has no value variable", sel.Sel.Name)
-				return true
+				return
 			}
 			l := loop{table: tableIndex(sel.Sel.Name)}
-			// the expiry `if`: <val>.lastConnection.Add(<Timeout>).Before(now)
+			// the expiry `if` (anywhere in the loop body, possibly as one conjunct of the condition):
+			// <val>.lastConnection.Add(<Timeout>).Before(<the current time>)
 			found := false
-			for _, st := range x.Body.List {
-				ifs, ok := st.(*ast.IfStmt)
-				if !ok {
+			var ifStmts []*ast.IfStmt
+			ast.Inspect(x.Body, func(m ast.Node) bool {
+				if is, ok := m.(*ast.IfStmt); ok {
+					ifStmts = append(ifStmts, is)
+				}
+				_, lit := m.(*ast.FuncLit)
+				return !lit
+			})
+			for _, ifs := range ifStmts {
+				var add *ast.CallExpr
+				for _, cj := range c13Conjuncts(ifs.Cond) {
+					call, ok := cj.(*ast.CallExpr)
+					if !ok {
+						continue // the nil check
+					}
+					s1, ok := call.Fun.(*ast.SelectorExpr)
+					if !ok || s1.Sel.Name != "Before" || len(call.Args) != 1 || !sc.isNow(call.Args[0]) {
+						continue
+					}
+					ad, ok := s1.X.(*ast.CallExpr)
+					if !ok || len(ad.Args) != 1 {
+						continue
+					}
+					s2, ok := ad.Fun.(*ast.SelectorExpr)
+					if !ok || s2.Sel.Name != "Add" || exprString(s2.X) != val.Name+".lastConnection" {
+						continue
+					}
+					add = ad
+				}
+				if add == nil {
 					continue
 				}
-				call, ok := ifs.Cond.(*ast.CallExpr)
-				if !ok {
-					continue // the nil check
-				}
-				s1, ok := call.Fun.(*ast.SelectorExpr)
-				if !ok || s1.Sel.Name != "Before" || len(call.Args) != 1 || exprString(call.Args[0]) != "now" {
-					continue
-				}
-				add, ok := s1.X.(*ast.CallExpr)
-				if !ok || len(add.Args) != 1 {
-					continue
-				}
-				s2, ok := add.Fun.(*ast.SelectorExpr)
-				if !ok || s2.Sel.Name != "Add" || exprString(s2.X) != val.Name+".lastConnection" {
-					continue
+				if found {
+					fail("pruning loop over %s: more than one expiry condition", sel.Sel.Name)
 				}
 				l.timeout = exprString(add.Args[0])
 				found = true
@@ -182,7 +365,6 @@ func extractC13(o *out) {
 			}
 			loops = append(loops, l)
 		}
-		return true
 	})
 	if sleep <= 0 {
 		fail("pruning goroutine: time.Sleep interval not found")
